@@ -57,9 +57,12 @@ NewHandle(S, par, tr, ow) ==
   [nh |-> S.nh + 1, parent |-> Append(S.parent, par),
    trusted |-> Append(S.trusted, tr), own |-> Append(S.own, ow)]
 
-(* The cases of the statement.  "repeat" (the key already sits at a smaller  *)
-(* index of this very history) is not a deposit history: drivers never issue *)
-(* it and the specification says nothing about it.                           *)
+(* The cases of the statement.  "repeat": the key already sits at a smaller *)
+(* index of this very history, so the pair cannot extend a deposit history.  *)
+(* The statement does not say what the reply is; it does say that no handle  *)
+(* may be disturbed and that lookups stay mutually inverse.  Allowed: an     *)
+(* error without any change, or a NEW handle of whatever (well-formed)       *)
+(* content; never an in-place change (or any reply naming the receiver).     *)
 Class(S, h, i, p) ==
   LET v == ViewS(S, h)
       n == Len(v)
@@ -81,6 +84,10 @@ NormalOutcomes(S, h, i, p, inPlaceOnly) ==
                                           S2 |-> NewHandle(S, h, Len(v), <<p>>)]})
         [] c = "conflict" -> {[kind |-> "new", h2 |-> S.nh + 1, S2 |-> NewHandle(S, h, i, <<p>>)]}
         [] c = "beyond"   -> {[kind |-> "err", h2 |-> 0, S2 |-> S]}
+        [] c = "repeat"   -> {[kind |-> "err", h2 |-> 0, S2 |-> S]}
+                             \cup (IF inPlaceOnly THEN {}     \* representatives of "a new handle, whatever its content"
+                                   ELSE {[kind |-> "new", h2 |-> S.nh + 1, S2 |-> NewHandle(S, h, i, <<>>)],
+                                         [kind |-> "new", h2 |-> S.nh + 1, S2 |-> NewHandle(S, 0, 0, <<p>>)]})
         [] OTHER          -> {}
 
 ----------------------------------------------------------------------------
@@ -152,10 +159,12 @@ Add(h, i, p) ==
   /\ \E o \in NormalOutcomes(St, h, i, p, InPlaceOnly) :
         /\ o.kind = "new" => nh < MaxHandles
         /\ SetSt(o.S2)
-        /\ built' = CASE o.kind = "new"  -> Append(built, SubSeq(built[h], 1, i) \o <<p>>)
+        /\ built' = CASE o.kind = "new" /\ Class(St, h, i, p) = "repeat" -> Append(built, ViewS(o.S2, o.h2))
+                      [] o.kind = "new"  -> Append(built, SubSeq(built[h], 1, i) \o <<p>>)
                       [] o.kind = "same" /\ o.S2 # St -> [built EXCEPT ![h] = Append(@, p)]
                       [] OTHER -> built
-        /\ reply' = [op |-> "add", h |-> h, i |-> i, p |-> p, kind |-> o.kind, h2 |-> o.h2]
+        /\ reply' = [op |-> "add", h |-> h, i |-> i, p |-> p, kind |-> o.kind, h2 |-> o.h2,
+                     class |-> Class(St, h, i, p)]
         /\ hist' = Append(hist, [h |-> h, i |-> i, p |-> p, kind |-> o.kind, h2 |-> o.h2,
                                  class |-> Class(St, h, i, p),
                                  views |-> [x \in 1..o.S2.nh |-> ViewS(o.S2, x)]])
@@ -218,8 +227,14 @@ OldHandleUndisturbedStep ==
         /\ reply'.i = Len(View(h))
 OldHandleUndisturbed == [][OldHandleUndisturbedStep]_vars
 
+(* a pair whose key already sits at a smaller index never changes the handle it is offered to *)
+RepeatNeverInPlace ==
+  [][(reply'.op = "add" /\ reply'.class = "repeat") =>
+        /\ reply'.kind \in {"err", "new"}
+        /\ \A h \in 1..nh : ViewS(St', h) = View(h)]_vars
+
 ForkOutIsNewHandle ==
-  [][(reply'.op = "add" /\ reply'.kind = "new") =>
+  [][(reply'.op = "add" /\ reply'.kind = "new" /\ reply'.class # "repeat") =>
         /\ nh' = nh + 1 /\ reply'.h2 = nh'
         /\ ViewS(St', nh') = SubSeq(View(reply'.h), 1, reply'.i) \o <<reply'.p>>]_vars
 
